@@ -60,6 +60,20 @@ def factor(src, dst, dim):
 def unit_str(sys, dim, style=0):
     """A documented-grammar spelling of the unit sys^dim. style 0: 'a.b-1' ; 1: 'a/b' ; order fixed."""
     parts = []
+    if style == 2:
+        # every base written once per unit of exponent: m2 -> m.m ; s-2 -> /s/s (a leading negative exponent keeps its
+        # first factor as 'sym-1'): the same unit, with the exponent of a base spread over several factors
+        for k in KINDS:
+            e = dim.get(k, 0)
+            sym = sys[k]
+            for _ in range(abs(e)):
+                if e > 0:
+                    parts.append(("." if parts else "") + sym)
+                elif parts:
+                    parts.append("/" + sym)
+                else:
+                    parts.append(sym + "-1")
+        return "".join(parts)
     for k in KINDS:
         e = dim.get(k, 0)
         if e == 0:
